@@ -27,6 +27,7 @@ type knobs struct {
 	oddModes      bool
 	bigFile       bool
 	extBack       bool // links inside ext dirs pointing back into the tree
+	safeOut       bool // outside links are limited to kinds that dereferencing can follow
 	concShared    bool // several callers share one Packer and pack at the same time (needs files big enough to yield inside)
 	viaRootName   bool // in-tree links spelled by way of the source directory's own name (../src/x)
 	nestedDeref   bool // an out-of-tree directory that itself contains a link to another out-of-tree directory
@@ -52,7 +53,8 @@ func Gen(seed uint64, profile string) *Scenario {
 	case "ignore":
 		k.rules, k.specials, k.inLinks = true, r.Chance(2, 3), r.Chance(1, 3)
 		k.metaRules = r.Chance(1, 4)
-		k.outLinks = r.Chance(1, 6)
+		k.outLinks = r.Chance(1, 3)
+		k.safeOut = true
 	case "links":
 		k.inLinks, k.absInLinks, k.outLinks, k.extBack = true, r.Chance(1, 2), r.Chance(3, 4), r.Chance(1, 3)
 		k.viaRootName, k.nestedDeref = r.Chance(1, 6), r.Chance(1, 5)
@@ -307,7 +309,10 @@ func genTree(r *simkit.RNG, sc *Scenario, k *knobs) {
 			if k.absInLinks {
 				opts = append(opts, "abs-in")
 			}
-			if k.outLinks {
+			if k.outLinks && k.safeOut {
+				// (rule-centred profile: only outside links that dereferencing can follow)
+				opts = append(opts, "out-file", "out-dir", "out-abs", "out-chain", "out-abs-unclean", "hist-ext")
+			} else if k.outLinks {
 				opts = append(opts, "out-file", "out-dir", "out-dangle", "sibling-prefix", "case-sibling", "out-abs", "out-chain", "hist-ext", "parent", "out-notdir", "out-loop", "out-abs-unclean", "via-alias")
 			}
 			if k.hostileLinks {
@@ -546,7 +551,18 @@ func genRules(r *simkit.RNG, sc *Scenario, k *knobs) string {
 		lines = append(lines[:pos], append([]string{bad}, lines[pos:]...)...)
 	}
 	// a directory rule naming a link to an out-of-tree directory, and a later rule re-including something below it
-	if k.outLinks && r.Chance(1, 3) {
+	if k.outLinks && r.Chance(1, 2) {
+		have := false
+		for _, n := range sc.Tree {
+			if n.Root == "src" && n.Kind == "link" && strings.Contains(n.Target, "ext/dir") && !strings.Contains(n.Target, "dir/") && !strings.ContainsAny(n.Path, "\\@\t\n") {
+				have = true
+			}
+		}
+		if !have {
+			nd := TNode{Root: "src", Path: "xl", Kind: "link", Mode: 0o777, Target: "../ext/dir"}
+			times(r, &nd)
+			sc.Tree = append(sc.Tree, nd)
+		}
 		for _, n := range sc.Tree {
 			if n.Root == "src" && n.Kind == "link" && strings.Contains(n.Target, "ext/dir") && !strings.Contains(n.Target, "dir/") && !strings.ContainsAny(n.Path, "\\@\t\n") {
 				lines = append(lines, n.Path+"/", "!"+n.Path+"/"+simkit.Pick(r, []string{"f", "secret", "sub/g"}))
@@ -615,6 +631,9 @@ func genRuns(r *simkit.RNG, sc *Scenario, k *knobs, profile string) {
 			}
 		}
 		sc.Opts.Deref = r.Chance(1, 5)
+		if k.rules && !k.concShared && simkit.NewRNG(sc.Seed, "pw/rt-stale").Chance(1, 6) {
+			sc.History = []string{"stale-rules-samelen"}
+		}
 		if k.rules {
 			sc.Opts.Ignore = r.Chance(3, 4)
 		}
